@@ -14,8 +14,12 @@ def have_runner_sources():
     return os.path.exists(os.path.join(FAM.runner_dir, 'build.sh')) and os.path.exists(os.path.join(FAM.coq, 'Extract', 'Extract.v'))
 
 
-BASE_TARGETS = ['Thrift/Len.vo', 'Thrift/Async.vo', 'Thrift/Skip.vo', 'Proofs/PrimP.vo', 'Proofs/HeaderP.vo', 'Proofs/RoundtripP.vo', 'Proofs/LenP.vo',
-                'Proofs/TotalP.vo', 'Proofs/AsyncP.vo', 'Proofs/SkipP.vo', 'Proofs/PrefixP.vo']
+def BASE_TARGETS_now():
+    """the base-library modules the family's sources import (scanned, so a new import cannot be forgotten)"""
+    return core.base_targets(FAM)
+
+
+BASE_TARGETS = []      # extra targets a check may append (kept for pv/props/c08.py)
 
 
 def coq_make_gen(targets, timeout=1500):
@@ -24,7 +28,7 @@ def coq_make_gen(targets, timeout=1500):
     with core.Lock('coq_main'):
         if not os.path.exists(os.path.join(core.COQ, 'Makefile')):
             core.sh(['coq_makefile', '-f', '_CoqProject', '-o', 'Makefile'], cwd=core.COQ)
-        rc, out = core.sh(['timeout', str(timeout), 'make', '-j8'] + BASE_TARGETS, cwd=core.COQ, timeout=timeout + 30)
+        rc, out = core.sh(['timeout', str(timeout), 'make', '-j8'] + sorted(set(BASE_TARGETS_now() + BASE_TARGETS)), cwd=core.COQ, timeout=timeout + 30)
     if rc != 0:
         return False, out
     with core.Lock('coq_gen'):
